@@ -19,7 +19,8 @@ P["C01"] = dict(cat="proof",
          "all small ternary matrices x a covering set of algorithm/ternary-binary/strategy/directGraphicness/seriesParallel "
          "parameters, plus random and structured 4x4..7x7 matrices with random full parameter vectors, is decided by the extracted judge.",
     note=NOTE_COMMON + "Seymour's theorem is not formalised: the decomposition engine is tied by exhaustive/random differential "
-         "correspondence against the proved oracle (oracle practical up to about 8x8).",
+         "correspondence against the proved oracle (oracle practical up to about 8x8); beyond that size the verdict is decided for network "
+         "matrices (proved TU from their digraph certificate, NetworkTU.v) and for certified 'no' answers (judge_tu_cert).",
     tech="Coq proof (oracle = determinant definition, judge soundness) + extracted judge run against CMRtuTest", ref="DESIGN.md C01")
 P["C07"] = dict(cat="proof",
     text="Coq: check_violator is sound for every matrix and index lists (acceptance implies a square in-range duplicate-free "
